@@ -24,6 +24,10 @@ def _CACHE_STORE(key):
             f"        filtered_terms[key].append(term_i)\n        _term_data_cache[{key}] = (target, pattern, key)\n\n    compatible_terms = {{}}")
 
 
+_SORTED = ("    terms = sorted(\n        expr.terms,\n        key=lambda t: str(t.substitute_contracted(return_sympy=True))\n    )\n")
+_NAMES = ("                lower_names = [sort_idx_canonical(s)[2:] for s in lower]\n"
+          "                upper_names = [sort_idx_canonical(s)[2:] for s in upper]\n")
+
 WITNESSES = [
     # ------------------------------------------------------------------ breaking edits (old set, rule ids kept)
     dict(id="c07-accept-without-test", prop="C07", file=S, expect="R07a", old=_ACCEPT, new="            return sub"),
@@ -243,6 +247,34 @@ WITNESSES = [
          new="            if not pattern:\n                continue\n            for other_i in range(i+1, len(term_idx_list)):\n"),
     # simplify drops pure numbers before the search and forgets to add them back
     dict(id="c07-simplify-numbers-lost", prop="C07", file=S, expect="R07c",
-         old="    terms = expr.terms\n    equal_terms = find_compatible_terms(terms)\n",
-         new="    terms = tuple(t for t in expr.terms if t.idx)\n    equal_terms = find_compatible_terms(terms)\n"),
+         old="    terms = sorted(\n        expr.terms,\n", new="    terms = sorted(\n        (t for t in expr.terms if t.idx),\n"),
+
+    # ------------------------------------------------------------------ F50: representative independent of the term order
+    dict(id="c07-F50-revert", prop="C07", file=S, expect="R07g", old=_SORTED, new="    terms = expr.terms\n"),
+    # sorted, but by the text with the current (history dependent) index names
+    dict(id="c07-sorted-by-raw-text", prop="C07", file=S, expect="R07g",
+         old="        key=lambda t: str(t.substitute_contracted(return_sympy=True))\n", new="        key=lambda t: str(t.sympy)\n"),
+    # sorted in the opposite direction: still independent of the order, but not the documented representative
+    dict(id="c07-sorted-descending", prop="C07", file=S, expect="R07g",
+         old="        key=lambda t: str(t.substitute_contracted(return_sympy=True))\n",
+         new="        key=lambda t: str(t.substitute_contracted(return_sympy=True)), reverse=True\n"),
+    dict(id="c07-ok-F50-sort-in-place", prop="C07", file=S, expect=None, old=_SORTED,
+         new="    def canonical_text(term):\n        return str(term.substitute_contracted(return_sympy=True))\n\n"
+             "    terms = list(expr.terms)\n    terms.sort(key=canonical_text)\n"),
+    dict(id="c07-ok-F50-decorate-sort", prop="C07", file=S, expect=None, old=_SORTED,
+         new="    keyed = [(str(t.substitute_contracted(return_sympy=True)), n, t)\n             for n, t in enumerate(expr.terms)]\n"
+             "    terms = [t for _, _, t in sorted(keyed, key=lambda entry: entry[:2])]\n"),
+    # ------------------------------------------------------------------ F33: both orientations of a symmetric tensor canonical
+    dict(id="c07-F33-revert", prop="C07", file="sympy_objects.py", expect="R07h", old=_NAMES,
+         new="                lower_names = [(int(s.name[1:]) if s.name[1:] else 0,\n                               s.name[0]) for s in lower]\n"
+             "                upper_names = [(int(s.name[1:]) if s.name[1:] else 0,\n                               s.name[0]) for s in upper]\n"),
+    # the swap decided by the names as plain strings: 'j0' < 'j' is False, 'j' < 'j0' True - consistent, but i#2 / i tie
+    dict(id="c07-swap-by-name-text", prop="C07", file="sympy_objects.py", expect="R07h", old=_NAMES,
+         new="                lower_names = [s.name for s in lower]\n                upper_names = [s.name for s in upper]\n"),
+    dict(id="c07-ok-F33-keys-through-map", prop="C07", file="sympy_objects.py", expect=None, old=_NAMES,
+         new="                lower_names = [key[2:] for key in map(sort_idx_canonical, lower)]\n"
+             "                upper_names = [key[2:] for key in map(sort_idx_canonical, upper)]\n"),
+    dict(id="c07-ok-F33-swap-inverted-test", prop="C07", file="sympy_objects.py", expect=None,
+         old=_NAMES + "                if lower_names < upper_names:\n                    return True\n",
+         new=_NAMES + "                return not upper_names <= lower_names\n"),
 ]
